@@ -86,7 +86,7 @@ static int       bufr_rd_section2 ( bufr_read_callback readcb,
                                 void *cd, BUFR_Message * );
 static int       bufr_rd_section3 ( bufr_read_callback readcb,
                                 void *cd, BUFR_Message * );
-static uint64_t  bufr_rd_section4 ( bufr_read_callback readcb,
+static int64_t   bufr_rd_section4 ( bufr_read_callback readcb,
                                 void *cd, BUFR_Message * );
 static int   bufr_rd_section5 ( bufr_read_callback readcb, void *cd );
 
@@ -2081,7 +2081,7 @@ static int bufr_rd_section3(bufr_read_callback readcb, void *cd,
  * @author Vanh Souvanlasy
  * @ingroup internal
  */
-static uint64_t bufr_rd_section4(bufr_read_callback readcb, void *cd,
+static int64_t bufr_rd_section4(bufr_read_callback readcb, void *cd,
                             BUFR_Message *bufr)
    {
    int64_t        len;
@@ -2097,7 +2097,7 @@ static uint64_t bufr_rd_section4(bufr_read_callback readcb, void *cd,
    total = bufr->s0.len + bufr->s1.len + bufr->s2.len + bufr->s3.len + bufr->s4.len + bufr->s5.len;
    if (total != bufr->len_msg)
       {
-      len = bufr->len_msg - (bufr->s0.len + bufr->s1.len + bufr->s2.len + bufr->s3.len + bufr->s5.len);
+      len = (int64_t)bufr->len_msg - (bufr->s0.len + bufr->s1.len + bufr->s2.len + bufr->s3.len + bufr->s5.len);
       if (bufr_is_debug())
          {
          char   errmsg[256];
@@ -2109,8 +2109,13 @@ static uint64_t bufr_rd_section4(bufr_read_callback readcb, void *cd,
       }
    else
       {
-      len = bufr->s4.len - bufr->s4.header_len;
+      len = (int64_t)bufr->s4.len - bufr->s4.header_len;
       }
+
+/*
+ * a Section 4 shorter than its own header, or a message shorter than its other sections
+ */
+   if ((len < 0)||(len > BUFR_MAX_MSG_LEN)) return -1;
 
    bufr_alloc_sect4( bufr, len );
 
